@@ -181,10 +181,16 @@ where
 
         if payload.delivery_tag == self.parent.expected {
             // exact match - we'll return this tag, and set next to an out-of-order
-            // entry for the next tag if we had one
+            // entry for the next tag if we had one. If this is the last tag of a
+            // multiple and it was already confirmed individually (and stashed in
+            // out_of_order), that earlier outcome wins here as well.
             self.parent.expected += 1;
+            let ret = match self.parent.out_of_order.remove(&payload.delivery_tag) {
+                Some(confirm) => confirm,
+                None => (self.to_confirm)(payload.delivery_tag),
+            };
             self.next = self.parent.out_of_order.remove(&self.parent.expected);
-            return Some((self.to_confirm)(payload.delivery_tag));
+            return Some(ret);
         }
 
         if payload.delivery_tag > self.parent.expected {
